@@ -82,6 +82,9 @@ func typeName(t types.Type) string {
 	case *types.Signature:
 		return "func"
 	case *types.Struct:
+		if tt.NumFields() == 0 {
+			return "struct{}"
+		}
 		return "struct"
 	case *types.Tuple:
 		return "tuple"
